@@ -290,8 +290,9 @@ class C15(Property):
                          "replay": res[0]}]
             return []
 
-        with concurrent.futures.ThreadPoolExecutor(max_workers=3) as ex:      # two go test builds and the hash monitor
-            jobs = [ex.submit(self._hash_monitor, ctx), ex.submit(whitebox, "kv"), ex.submit(whitebox, "cache")]
+        with concurrent.futures.ThreadPoolExecutor(max_workers=4) as ex:      # two go test builds, the hash and the lookups monitor
+            jobs = [ex.submit(self._hash_monitor, ctx), ex.submit(whitebox, "kv"), ex.submit(whitebox, "cache"),
+                    ex.submit(self._gets_monitor, ctx)]
             fails = [f for j in jobs for f in j.result()]
         if ctx.tier == "thorough":
             fails += self._free_monitor(ctx)
@@ -424,7 +425,7 @@ class C15(Property):
             self._cluster("cache", [100, 1, 0, 50], ["k%d" % i for i in range(24)]),
             self._cluster("kv", [100], ["a", "b", "c"]),
             self._cluster("kv", [10, 100, 100], ["k%d" % i for i in range(24)]),
-        ] + self._script_corpus() + self._conc_corpus()
+        ] + self._script_corpus() + self._conc_corpus() + self._gets_corpus()
 
     # ---- the VALUE of a member: last added value wins (seeded C15-10) ---------------------------------
     def _value_corpus(self):
@@ -532,6 +533,31 @@ class C15(Property):
         h2 = (h2 + h1) & M
         h1, h2 = fmix(h1), fmix(h2)
         return (h1 + h2) & M
+
+    def _gets_monitor(self, ctx):
+        """Free-running pure-lookup concurrency on ONE fixed ring (quick tier, no schedule forced): 8 goroutines
+        run rounds over all probes as fast as they can; every answer must be the quiescent ring's answer
+        (reads do not write).  No false alarm possible on a correct ring; a lookup that scribbles on shared
+        state shows up with a probability that grows with the real parallelism of the machine — the forced
+        schedules (conc steps "gg") are the deterministic counterpart."""
+        five = [S("node-%d" % i) for i in range(5)]
+        P = [S("user:%d" % (1000 + i)) for i in range(24)]
+        SP = [S("11%d" % j) for j in range(10)] + [S("key:%d" % i) for i in range(14)]
+        cases = [{"id": 0, "kind": "gets", "r": 0, "mod": 3000, "nodes": five, "threads": [[]] * 8, "probes": P},
+                 {"id": 1, "kind": "gets", "r": 150, "mod": 3000, "nodes": [S("1"), S("11"), S("other")], "threads": [[]] * 8, "probes": SP}]
+        rc, out, res = vlib.go_run(self.bin, cases, tag="c15", timeout=300)
+        if rc != 0 or len(res) != len(cases):
+            raise ExecError("c15 concurrent-lookups executor rc=%s: %s" % (rc, out[-1500:]))
+        fails, total = [], 0
+        for c, o in zip(cases, res):
+            row = o["rx"][0]
+            total += int(row[0])
+            if int(row[1]):
+                fails.append({"what": "free-running concurrent lookups on a fixed ring: %s of %s Get answers differ from the "
+                                      "quiescent ring's (probe/got/want: %s)" % (row[1], row[0], row[2:]),
+                              "replay": {"case": c, "observed": o}})
+        ctx.notes.append("C15 free-running lookups on a fixed ring: %d Get answers compared with the quiescent answers" % total)
+        return fails
 
     def _hash_monitor(self, ctx):
         """hash.go as the ring uses it: Hash is a FUNCTION of the bytes (equal results when evaluated again, the
@@ -864,7 +890,7 @@ class C15(Property):
     @staticmethod
     def _tid(st):
         """a schedule step: a thread id, or ["g", probe, thread] (a lookup overlapping the thread's step)"""
-        return st if isinstance(st, int) else st[2]
+        return st if isinstance(st, int) else (-1 if st[0] == "gg" else st[2])
 
     @staticmethod
     def _shared_strings(nodes, R):
@@ -925,6 +951,23 @@ class C15(Property):
                        [S("key-%d" % i) for i in range(40)])
             for R, kind, arg in ((0, "add", []), (150, "addw", [100]))
         ]
+
+    def _gets_corpus(self):
+        """Concurrent LOOKUPS on an unchanged ring (seeded C15-11): Get(k) is held inside the hash function — at the
+        key's hash, or at the inner hash of a shared slot — while complete lookups of other keys, owned by other
+        nodes, run; every one must answer as on the quiescent ring."""
+        five = ["node-%d" % i for i in range(5)]
+        P = [S("user:%d" % (1000 + i)) for i in range(20)] + [I(77), ST("user:5"), K("bytes", "raw1"), K("f64", "2.5")]
+        res = []
+        for R in (0, 150):
+            res.append(self._conc(R, five, [[["add", k] for k in range(5)]],
+                                  [0] * 10 + [["gg", j, [(j + 1 + 3 * q) % 24 for q in range(1 + j % 4)], 1] for j in range(16)], P))
+        # shared slots: nodes "1" and "11" share "110".."119"; the held lookup parks at its INNER hash
+        SP = [S("11%d" % j) for j in range(10)] + [S("key:%d" % i) for i in range(8)]
+        for first, second in (("1", "11"), ("11", "1")):
+            res.append(self._conc(0, [first, second, "other"], [[["add", 0], ["add", 1], ["add", 2]]],
+                                  [0] * 6 + [["gg", j, [(j + 1 + 5 * q) % 18 for q in range(1 + j % 3)], 2 - (j // 10)] for j in range(14)], SP))
+        return res
 
     def _gen_conc(self, rng):
         pool = rng.choice([["alpha", "beta", "gamma", "delta"], ["10.0.0.1:6379", "10.0.0.2:6379", "10.0.0.3:6379", "10.0.0.9:6379"],
@@ -994,6 +1037,14 @@ class C15(Property):
             # the swapper's first call completes, A is held, the swap runs (or blocks), the rest follows;
             # surplus steps of a thread that has nothing left are idle steps
             sched = pre[:cut] + [swapper, swapper, ["h", ta, inner]] + pre[cut:] + [swapper, swapper]
+        if rng.random() < 0.5:
+            # lookups overlapping LOOKUPS: one held inside the hash function (key hash; inner hash when the key is
+            # a shared virtual-node string), 1-4 others complete meanwhile
+            for _ in range(rng.randint(1, 4)):
+                p = rng.randrange(len(ps))
+                nth = 2 if shared and p < min(8, len(shared)) and rng.random() < 0.6 else 1
+                others = [rng.randrange(len(ps)) for _ in range(rng.randint(1, 4))]
+                sched.insert(rng.randint(0, len(sched)), ["gg", p, others, nth])
         return self._conc(R, nodes, threads, sched, ps)
 
     def _conc_steps(self, case, obs):
@@ -1020,6 +1071,9 @@ class C15(Property):
 
         steps = []
         for st, what in zip(case["sched"], obs.get("res") or []):
+            if not isinstance(st, int) and st[0] == "gg":
+                steps.append([])          # lookups only
+                continue
             if not isinstance(st, int) and st[0] == "h":
                 # the held call's Remove, the calls that finished inside its hashing, its insertion, the others
                 _, wa, inside, ws = what.split("|")
@@ -1048,13 +1102,23 @@ class C15(Property):
         steps = []
         gobs = obs.get("gobs") or [[]] * len(case["sched"])
         b = lambda x: "true" if x else "false"
-        for acts, go in zip(self._conc_steps(case, obs), gobs):
+        rows_out = [obs["gets"][0]]
+        for st, acts, go, row in zip(case["sched"], self._conc_steps(case, obs), gobs, obs["gets"][1:]):
+            if not isinstance(st, int) and st[0] == "gg":
+                # concurrent lookups on an unchanged ring: every one of them is judged (and compared with the
+                # model) in the state of the step — the held one and those that ran while it was held
+                looks = [(go[0], go[1], go[2])] + [(go[i], go[i + 1], go[2]) for i in range(4, len(go), 2)]
+                for q, a, ovl in looks:
+                    steps.append("([], Some (%d, %s, %s, false))" % (q, cz(a), b(ovl)))
+                    rows_out.append(row)
+                continue
             steps.append("(%s, %s)" % (
                 clist(["ARemove %d" % ids[obs["reprs"][k]] if kind == "rem" else
                        "AInsert (mkNode %d %d) %s" % (ids[obs["reprs"][k]], k, cz(r)) for kind, k, r in acts]),
                 "Some (%d, %s, %s, %s)" % (go[0], cz(go[1]), b(go[2]), b(go[3])) if go else "None"))
+            rows_out.append(row)
         ps = clist(["(%d, %s)" % (rank[int(a)], b) for a, b in obs["ph"]])
-        gets = clist([clist([cz(g) for g in row]) for row in obs["gets"]])
+        gets = clist([clist([cz(g) for g in row]) for row in rows_out])
         return "ConcCase (mkConc %s %s %s %s %s)" % (cz(obs["r"]), clist(rows), clist(steps), ps, gets)
 
     def _cluster(self, kind, weights, keys):
@@ -1416,10 +1480,17 @@ class C15(Property):
                     c["threads"] = [l if i != ti else ops[:j] + ops[j + 1:] for i, l in enumerate(case["threads"])]
                     c["sched"] = sched
                     res.append(c)
-            # a lookup step becomes a plain step
+            # a lookup step becomes a plain step; a concurrent-lookups step goes, or loses one of its lookups
             for i, st in enumerate(case["sched"]):
-                if not isinstance(st, int):
+                if not isinstance(st, int) and st[0] == "gg":
+                    res.append(dict(case, sched=case["sched"][:i] + case["sched"][i + 1:]))
+                    if len(st[2]) > 1:
+                        res += [dict(case, sched=case["sched"][:i] + [["gg", st[1], st[2][:q] + st[2][q + 1:], st[3]]] + case["sched"][i + 1:])
+                                for q in range(len(st[2]))]
+                elif not isinstance(st, int):
                     res.append(dict(case, sched=case["sched"][:i] + [st[2]] + case["sched"][i + 1:]))
+            if not any(isinstance(st, int) or st[0] != "gg" for st in case["sched"][-1:]) and len(case["sched"]) > 1:
+                res.append(dict(case, sched=case["sched"][:-1]))
             if len(case["probes"]) > 4 and all(isinstance(st, int) for st in case["sched"]):
                 res.append(dict(case, probes=case["probes"][:len(case["probes"]) // 2]))
                 res.append(dict(case, probes=case["probes"][len(case["probes"]) // 2:]))
@@ -1501,7 +1572,12 @@ class C15(Property):
                     fs.append("conc_call_held_in_hashing")
                     if int(w.split("|")[2]) > 0:
                         fs.append("conc_calls_ran_inside_hashing")
-            for go in obs.get("gobs") or []:
+            for st, go in zip(case["sched"], obs.get("gobs") or []):
+                if go and not isinstance(st, int) and st[0] == "gg":
+                    fs.append("conc_lookups_overlapping_a_lookup")
+                    if go[2]:
+                        fs.append("conc_lookup_held_in_its_%s_hash" % ("key", "inner")[st[3] - 1])
+                    continue
                 if go:
                     fs.append("conc_lookup_overlapping_a_step")
                     if go[2]:
